@@ -1,6 +1,6 @@
 SPECIFICATION Spec
 CONSTANTS
-  Impl = "asis"
+  Impl = "pinned"
   MaxNodes = 1
   Widths = {2}
   Dims = {2}
